@@ -328,7 +328,8 @@ pub fn load() -> LeapTable {
 }
 
 pub fn run(rep: &mut Report) {
-    let q = rep.quick();
+    let deep = !rep.quick();
+    let q = false;
     let leap = load();
     rep.rule = "built-in table, reverse iteration, indexing and the file provider against the IERS list parsed from data/leap-seconds.list and naif0012.txt; UTC and TAI instants: every whole second from -45 s to +85 s around each of the 28 IERS and 14 SOFA entries x sub-second offsets {0, 1 ns, 1/2 s, 1 s - 1 ns}, windows of every nanosecond round each entry, the duration lattice within +-10 500 years; providers: files written for every prefix of the IERS list (0..28 entries) and 5 format variants x the instants x scales. Oracle: table lookup on integers; TAI->UTC defined as the inverse of UTC->TAI, inserted intervals are don't-cares for the value. Non-trivial = within 90 s of an entry.".into();
     rep.assumptions = vec!["the two shipped data files agree with each other and with the 28-entry digest in the harness (checked at start-up; a mismatch is a machinery error)".into()];
@@ -337,7 +338,7 @@ pub fn run(rep: &mut Report) {
     let mut utc = lattice::el(TimeScale::UTC, 8, lw);
     let mut tai = lattice::el(TimeScale::TAI, 8, lw);
     // every nanosecond within +-W of each entry (UTC side) and of each entry's TAI instant
-    let w: i128 = if q { 300 } else { 3000 };
+    let w: i128 = if deep { 30_000 } else { 3000 };
     for (ts, d) in &leap.entries {
         for o in -w..=w {
             utc.push(*ts as i128 * NS + o);
